@@ -51,7 +51,10 @@ def evaluate(ctx, e):
             leaf_names = set(re.findall(r"\b([fg]_\d+)\b", out1))
             missing = sorted(changed - leaf_names)
             if missing:
-                fails.append({"sig": "C13 abidiff mismatch:interface-missing-in-leaf-mode %s" % cls,
-                              "what": "changed in default mode but neither reported nor impacted in leaf mode: %s" % missing[:6]})
+                lab = dict((str(i[0]), i[5]) for i in info)
+                ecls = sorted(set(re.sub(r"\W+", "_", re.sub(r"@\d+", "", lab.get(m.split("_")[1], "?"))).strip("_") for m in missing))
+                for ec in ecls:
+                    fails.append({"sig": "C13 abidiff mismatch:interface-missing-in-leaf-mode %s %s" % (cls, ec),
+                                  "what": "changed in default mode but neither reported nor impacted in leaf mode: %s (edits %s)" % (missing[:6], [lab.get(m.split("_")[1]) for m in missing[:6]])})
             outs["agree" if not fails else "disagree"] = outs.get("agree" if not fails else "disagree", 0) + 1
     return {"evaluations": n, "nontrivial_count": n // 2, "outcomes": outs, "failures": fails, "sample": {"class": e["cls"], "units": len(info), "first_edge": e["pack"][0]}}
